@@ -29,6 +29,13 @@ class AnalysisError(Exception):
         self.what = what
 
 
+class MechanismMissing(AnalysisError):
+    """The anchor function exists but the construct that implements the property's
+    mechanism could not be found in it (guard deleted, loop rewritten away ...).
+    Unlike a vanished file/function this is reported as a VIOLATION of the rule:
+    the disappearance of the mechanism is what a must-exist rule is about."""
+
+
 def norm(node_or_text) -> str:
     """Normalised text of an AST node (or string): formatting-insensitive."""
     if isinstance(node_or_text, ast.AST):
@@ -203,7 +210,7 @@ class Report:
     def require_instances(self, rule: str, minimum: int, what: str):
         n = self.count(rule)
         if n < minimum:
-            raise AnalysisError(
+            raise MechanismMissing(
                 rule,
                 "only %d instance(s) of %s matched, expected at least %d "
                 "(the rule would pass vacuously)" % (n, what, minimum),
@@ -267,6 +274,9 @@ def run_rules(spec: PropertySpec, ctx: Context, tier: str) -> Report:
             continue
         try:
             r.fn(ctx, rep)
+        except MechanismMissing as e:
+            rep.ob(e.rule, "%s:%s" % (spec.pid, e.rule), "mechanism present", False,
+                   "the construct this rule inspects was not found in its anchor function: %s" % e.what)
         except AnalysisError as e:
             # do not let one rule's vanished anchor hide another rule's violation
             rep.analysis_errors.append(e)
